@@ -158,9 +158,12 @@ QUANTUM = {
 
 def plan(tier, seed):
     n = 16
-    return [{"kind": "attrs", "shard": i, "of": n, "extra": 0 if tier == "quick" else 2000} for i in range(n)] + [{"kind": "enums"}] + [
-        {"kind": "corpus", "shard": i, "of": 4} for i in range(4)
-    ]
+    return (
+        [{"kind": "attrs", "shard": i, "of": n, "extra": 0 if tier == "quick" else 2000} for i in range(n)]
+        + [{"kind": "enums"}]
+        + [{"kind": "corpus", "shard": i, "of": 4} for i in range(4)]
+        + [{"kind": "online", "n": 30 if tier == "quick" else 500, "shard": i} for i in range(4 if tier == "quick" else 16)]
+    )
 
 
 def _short(v):
@@ -405,6 +408,10 @@ def run_unit(unit, tier, seed, acc):
         return run_enums(acc)
     if unit["kind"] == "corpus":
         return run_corpus(unit, acc)
+    if unit["kind"] == "online":
+        from vlib import histories
+
+        return histories.run_online_unit("C11", unit, tier, seed, acc)
     regs = introspect.registrations()
     tags = sorted(regs)
     for i, T in enumerate(tags):
@@ -516,3 +523,5 @@ def finalize(acc, tier, seed):
         acc.inconclusive.append("no written form was validated")
     if not acc.counters.get("schema_valid_forms_read"):
         acc.inconclusive.append("no schema-valid lexical form was read")
+    if not acc.counters.get("M-ATTR:judged"):
+        acc.inconclusive.append("online monitor M-ATTR never judged a to_xml call")
